@@ -177,3 +177,14 @@ fn d3a_lj_score_is_a_property_of_the_crystal() {
     // the potential of a circle is uncut: the two descriptions agree up to the convergence error of the 3-shell sum
     assert!((s1 - s2).abs() < 1e-4 * s1.abs(), "same crystal, scores {} and {}", s1, s2);
 }
+
+/// D2 (C02, KNOWN FINDING, not fixed): the trimer area is pairwise inclusion-exclusion; when a small disc lies inside
+/// the central one the lens formula takes acos of a number above 1 and the area — hence the score — is NaN.
+#[test]
+fn d2_trimer_area_is_the_area_of_the_union() {
+    use packing::MolecularShape2;
+    let shape = MolecularShape2::from_trimer(0.3, 120., 0.5);
+    let area = shape.area();
+    // both small discs (radius 0.3 at distance 0.5) lie inside the unit disc: the union is the unit disc
+    assert!((area - std::f64::consts::PI).abs() < 1e-9, "area of a unit disc with two discs inside it reported as {}", area);
+}
